@@ -321,6 +321,7 @@ pub fn run_supply_check(check: &str, tier: Tier, seed: u64, index: u64, scratch:
             }
         }
     }
+    t.rel_link_dir = fr.chance(1, 6);
     if check == "C15" && fr.chance(1, 3) {
         // the caller asks for a named summary
         t.step_name = Some(gen::simple_name(&mut fr));
@@ -454,6 +455,15 @@ pub fn run_c13(tier: Tier, seed: u64, index: u64, scratch: &Scratch, rec: &mut R
             }
         }
     }
+    // the bytes of the link files arrive in short reads / after EINTR on every other repetition
+    if fr.chance(1, 3) {
+        t.read_faults = Some(match fr.below(3) {
+            0 => (500, 0),
+            1 => (300, 200),
+            _ => (0, 300),
+        });
+    }
+    t.rel_link_dir = fr.chance(1, 4);
     // a second arrival order
     let mut ar = Rng::stream(seed, "arrival2");
     t.arrivals = vec![ar.next(), ar.next(), ar.next()];
